@@ -3,6 +3,7 @@ package main
 // Running one harness (one obligation group): symbolic execution, then discharge of every recorded obligation.
 
 import (
+	"sync/atomic"
 	"fmt"
 	"math/big"
 	"regexp"
@@ -184,6 +185,12 @@ func (r *ObRun) discharge(timeout time.Duration, workers int) {
 	}
 	var wg sync.WaitGroup
 	sem := make(chan struct{}, workers)
+	firstRefuted := int64(-1)
+	cancels := make([]chan struct{}, len(r.Obs))
+	var cmu sync.Mutex
+	for i := range cancels {
+		cancels[i] = make(chan struct{})
+	}
 	step := len(r.Obs)/12 + 1
 	for i, ob := range r.Obs {
 		ob := ob
@@ -195,10 +202,37 @@ func (r *ObRun) discharge(timeout time.Duration, workers int) {
 		if ob.Kind == "reach" && len(r.Uses) > 0 && to > 8*time.Second {
 			to = 8 * time.Second // satisfiability through contracts is hard for NIA solvers; see main.go on reach-unknown
 		}
+		idx := int64(i)
 		go func() {
 			defer wg.Done()
 			defer func() { <-sem }()
-			dischargeOne(ob, mode, solvers, to, r.Asserted)
+			// obligations after a refuted assertion assume that assertion: they are tainted, skip them
+			if fr := atomic.LoadInt64(&firstRefuted); fr >= 0 && idx > fr {
+				ob.Verdict = "skipped"
+				ob.Note = "follows a refuted assertion of the same run (which it assumes)"
+				return
+			}
+			dischargeOne(ob, mode, solvers, to, r.Asserted, cancels[idx])
+			if ob.Verdict == "refuted" {
+				cmu.Lock()
+				for j := int(idx) + 1; j < len(cancels); j++ {
+					select {
+					case <-cancels[j]:
+					default:
+						close(cancels[j])
+					}
+				}
+				cmu.Unlock()
+				for {
+					fr := atomic.LoadInt64(&firstRefuted)
+					if fr >= 0 && fr <= idx {
+						break
+					}
+					if atomic.CompareAndSwapInt64(&firstRefuted, fr, idx) {
+						break
+					}
+				}
+			}
 		}()
 	}
 	wg.Wait()
@@ -212,7 +246,7 @@ var selfCheckSamples = 6
 var searchSamples = 400
 var runSeed int64
 
-func dischargeOne(ob *Oblig, mode string, solvers []string, timeout time.Duration, asserted map[*Term]bool) {
+func dischargeOne(ob *Oblig, mode string, solvers []string, timeout time.Duration, asserted map[*Term]bool, cancel <-chan struct{}) {
 	start := time.Now()
 	defer func() { ob.Secs = time.Since(start).Seconds() }()
 	defer func() {
@@ -304,8 +338,13 @@ func dischargeOne(ob *Oblig, mode string, solvers []string, timeout time.Duratio
 		script = SMTScript(roots)
 		vars = termVars(roots...)
 	}
-	res := Solve(script, vars, timeout, solvers)
+	res := SolveC(script, vars, timeout, solvers, cancel)
 	ob.Solver = res.Solver
+	if res.Err == "cancelled" {
+		ob.Verdict = "skipped"
+		ob.Note = "cancelled: follows a refuted assertion of the same run"
+		return
+	}
 	switch res.Status {
 	case "unsat":
 		if ob.Kind == "reach" {
